@@ -43,7 +43,11 @@ theorem hrnp_wrap (p : Pdu) (hp : p.WF) (h v block src dst pn : Nat) (hpn : pn <
   refine ⟨f.asBytes, hb, fun hlen => ?_⟩
   have hb' : p.norm.asBytes = .ok f.asBytes := by rw [pdu_asBytes_norm p hp]; exact hb
   have hl' : p.norm.len = .ok f.asBytes.length := by rw [pdu_len_norm p hp]; exact hl
-  obtain ⟨h1, h2, h3, h4, h5⟩ := hrnp_roundtrip p p.norm f.asBytes h v block src dst pn hb hl hparse hb' hl' hpn hlen
+  have hlit : p.norm.little = f.little := by
+    rw [pdu_frame_little p f hf]; cases p <;> rfl
+  have hfl : f.asBytes.length = 7 + (if p.norm.little then ofLe (sl f.asBytes 3 5) else ofBe (sl f.asBytes 3 5)) := by
+    rw [hlit]; exact frame_len_field f ho hfit
+  obtain ⟨h1, h2, h3, h4, h5⟩ := hrnp_roundtrip p p.norm f.asBytes h v block src dst pn hb hl hparse hb' hl' hfl hpn hlen
   refine ⟨_, _, h1, h2, h3, ?_, hrnpPacket_length .., ?_, hrnp_ones_complement .., _, h4, rfl, h5, rfl⟩
   · have e := Nat.mod_eq_of_lt hlen
     simp [hrnpPacket, hrnpHead, sl, be2, ofBe2', e]; omega
